@@ -361,6 +361,10 @@ def load_patches(
     if patch_centers is not None:
         if isinstance(patch_centers, Catalog):
             patch_centers = patch_centers.get_centers()
+        # patch i must belong to center i, which requires data in every patch
+        if patch_ids != list(range(len(patch_centers))):
+            empty = sorted(set(range(len(patch_centers))) - set(patch_ids))
+            raise ValueError(f"patch centers with IDs {empty} contain no data")
         patch_arg_iter = zip(patch_paths, patch_centers)
 
     else:
